@@ -63,6 +63,11 @@ def bkStep (s : BkSt) (line : String) : BkSt × String :=
   | ["put", path, k, v] => at_ path (putAt Bkt.fuel (unhex k) (unval v)) "none" (fun r p => apiPut r p (unhex k) (unval v))
   | ["del", path, k] => at_ path (delAt Bkt.fuel (unhex k)) "none" (fun r p => apiDelete r p (unhex k))
   | ["seq", path, n] => at_ path (setSeqAt n.toNat!) "none" (fun r p => apiSetSequence r p n.toNat!)
+  | ["nseq", path] => at_ path nextSeqAt "none" (fun r p => (apiNextSequence r p).map (·.1))
+  | ["get", path, k] =>
+    (s, match s.cur.bind (bkAt (parseBPath path)) with
+        | some b => (match getAt Bkt.fuel (unhex k) b with | some v => "v:" ++ valStr v | none => "nil")
+        | none => "none")
   | ["dump"] => (s, match s.cur with | some b => showBk b | none => "none")
   | ["agree"] => (s, match s.cur with | some b => (agree b s.spec).trimAscii.toString ++ s!" w={decide (WF Bkt.fuel s.orig b)}" | none => "none")
   | ["fullok"] => (s, match s.cur with | some b => s!"o={origShapeOk Bkt.fuel (full s.orig Bkt.fuel [] b)}" | none => "none")
